@@ -3,7 +3,7 @@ import RsslVerif.Spec.MslDup
 # C02 — an operand accepted by a sound side-effect test can be written any number of times
 -/
 namespace RsslVerif.Lemmas.MslDup
-open RsslVerif.Gen.MslDupSites RsslVerif.Model.MslDup RsslVerif.Spec.MslDup
+open RsslVerif.Gen.MslDupSites RsslVerif.Gen.MslGenTables RsslVerif.Model.MslDup RsslVerif.Spec.MslDup
 
 variable {Val Store : Type}
 
@@ -118,5 +118,400 @@ theorem repeat_of_keeps_store (I : Interp Val Store) (e : DExpr)
     unfold evalRepeat
     have ih := repeat_of_keeps_store I e hpure n σ' v σ' he
     simp only [he, ih, List.replicate_succ]
+
+/-! ## the local tests of the floating-point `%=` arm (tables of `PlaceRow`) -/
+
+/-- what soundness gives for the row a test picks -/
+theorem soundTabs_row {rows : List PlaceRow} {more : List (List PlaceRow)} (hs : SoundTabs (rows :: more) = true)
+    {c : String} {fs : DFields} {r : PlaceRow} (hf : findPlaceRow rows c fs = some r) :
+    r.ctor = c ∧ opOK r fs = true ∧ soundRow r = true := by
+  unfold findPlaceRow at hf
+  have hmem := List.mem_of_find?_eq_some hf
+  have hp := List.find?_some hf
+  simp only [Bool.and_eq_true, beq_iff_eq] at hp
+  unfold SoundTabs at hs
+  simp only [List.all_cons, Bool.and_eq_true, List.all_eq_true] at hs
+  exact ⟨hp.1, hp.2, hs.1 r hmem⟩
+
+theorem soundTabs_tail {rows : List PlaceRow} {more : List (List PlaceRow)} (hs : SoundTabs (rows :: more) = true) :
+    SoundTabs more = true := by
+  unfold SoundTabs at hs ⊢
+  simp only [List.all_cons, Bool.and_eq_true] at hs
+  exact hs.2
+
+/-- a covered `Box` field the test accepts was handed to the test itself or to the next one -/
+theorem one_field {rows : List PlaceRow} {more : List (List PlaceRow)} {r : PlaceRow} {i : Nat} {e : DExpr}
+    (hcov : (r.self.contains i = true ∨ r.other.contains i = true) ∨ r.allOf.contains i = true)
+    (hna : (!r.allOf.contains i) = true)
+    (hg : (if r.self.contains i = true then testD (rows :: more) e else if r.other.contains i = true then testD more e else true) = true) :
+    testD (rows :: more) e = true ∨ testD more e = true := by
+  rcases hcov with (h | h) | h
+  · rw [if_pos h] at hg; exact .inl hg
+  · by_cases h' : r.self.contains i = true
+    · rw [if_pos h'] at hg; exact .inl hg
+    · rw [if_neg h', if_pos h] at hg; exact .inr hg
+  · rw [h] at hna; exact absurd hna (by simp)
+
+mutual
+/-- evaluating an operand accepted by a sound chain of tests does not change the store -/
+theorem testD_keeps_store (I : Interp Val Store) :
+    ∀ (e : DExpr) (tabs : List (List PlaceRow)), SoundTabs tabs = true → wf e = true → testD tabs e = true →
+      ∀ σ v σ', eval I e σ = some (v, σ') → σ' = σ
+  | .node c fs, [], _, _, hg, _, _, _, _ => by simp [testD] at hg
+  | .node c fs, rows :: more, hs, hw, hg, σ, v, σ', he => by
+    unfold testD at hg
+    cases hf : findPlaceRow rows c fs with
+    | none => rw [hf] at hg; exact absurd hg (by simp)
+    | some r =>
+      rw [hf] at hg
+      simp only [Bool.and_eq_true] at hg
+      obtain ⟨hrc, hop, hsr⟩ := soundTabs_row hs hf
+      unfold soundRow at hsr
+      rw [hrc] at hsr
+      unfold wf at hw
+      cases hk : ctorOf c with
+      | none => rw [hk] at hsr; exact absurd hsr (by simp)
+      | some k =>
+        rw [hk] at hsr hw
+        simp only [Bool.and_eq_true, List.all_eq_true, Bool.or_eq_true] at hsr hw
+        obtain ⟨⟨_, hcov⟩, hkind⟩ := hsr
+        have hcov' : ∀ j, k.exprFields.contains j = true →
+            (r.self.contains j = true ∨ r.other.contains j = true) ∨ r.allOf.contains j = true := by
+          intro j hj; exact hcov j (by simpa using hj)
+        by_cases hops : r.ops.isEmpty = true
+        · rw [if_pos hops] at hkind
+          simp only [Bool.or_eq_true, Bool.and_eq_true, beq_iff_eq] at hkind
+          by_cases hp : strictPure.contains c = true
+          · -- strict pure constructor
+            unfold eval at he
+            rw [if_pos hp] at he
+            cases hfs : evalFields I fs σ with
+            | none => rw [hfs] at he; exact absurd he (by simp)
+            | some p =>
+              obtain ⟨vs, σ1⟩ := p
+              simp only [hfs] at he
+              have h1 : σ1 = σ := testDFields_keeps_store I fs rows more r hs k.exprFields hcov' 0 hw.2 hg.2 σ vs σ1 hfs
+              cases hst : I.step c fs.payloads vs σ1 with
+              | none => rw [hst] at he; exact absurd he (by simp)
+              | some w =>
+                simp only [hst, Option.some.injEq, Prod.mk.injEq] at he
+                rw [← he.2, h1]
+          · -- `?:`
+            obtain ⟨hc, hnoall⟩ : c = "TernaryConditional" ∧ r.allOf.isEmpty = true := by
+              rcases hkind with h | h
+              · exact absurd h hp
+              · exact h
+            subst hc
+            have hk' : k = ⟨"TernaryConditional", 3, [0, 1, 2]⟩ := by
+              have : ctorOf "TernaryConditional" = some ⟨"TernaryConditional", 3, [0, 1, 2]⟩ := by decide
+              rw [this] at hk; exact (Option.some.inj hk).symm
+            subst hk'
+            have hall : ∀ i, r.allOf.contains i = false := by
+              intro i
+              have : r.allOf = [] := by simpa using hnoall
+              simp [this]
+            have hwf := hw.2
+            have hgf := hg.2
+            have hlen := hw.1
+            match fs, hwf, hgf, hlen, he with
+            | .one cond (.one t (.one f .nil)), hwf, hgf, _, he =>
+              simp only [wfFields, Bool.and_eq_true] at hwf
+              obtain ⟨⟨_, hwc⟩, ⟨⟨_, hwt⟩, ⟨⟨_, hwf'⟩, _⟩⟩⟩ := hwf
+              simp only [testDFields, Bool.and_eq_true] at hgf
+              obtain ⟨⟨hna0, hgc⟩, ⟨⟨hna1, hgt⟩, ⟨⟨hna2, hgf'⟩, _⟩⟩⟩ := hgf
+              have pc := one_field (hcov' 0 (by decide)) hna0 hgc
+              have pt := one_field (hcov' 1 (by decide)) hna1 hgt
+              have pf := one_field (hcov' 2 (by decide)) hna2 hgf'
+              have kc : ∀ σ v σ', eval I cond σ = some (v, σ') → σ' = σ := by
+                rcases pc with h | h
+                · exact testD_keeps_store I cond (rows :: more) hs hwc h
+                · exact testD_keeps_store I cond more (soundTabs_tail hs) hwc h
+              have kt : ∀ σ v σ', eval I t σ = some (v, σ') → σ' = σ := by
+                rcases pt with h | h
+                · exact testD_keeps_store I t (rows :: more) hs hwt h
+                · exact testD_keeps_store I t more (soundTabs_tail hs) hwt h
+              have kf : ∀ σ v σ', eval I f σ = some (v, σ') → σ' = σ := by
+                rcases pf with h | h
+                · exact testD_keeps_store I f (rows :: more) hs hwf' h
+                · exact testD_keeps_store I f more (soundTabs_tail hs) hwf' h
+              unfold eval at he
+              rw [if_neg hp, if_neg (by decide), if_pos rfl] at he
+              simp only at he
+              cases h1 : eval I cond σ with
+              | none => rw [h1] at he; exact absurd he (by simp)
+              | some p =>
+                obtain ⟨vc, σ1⟩ := p
+                have e1 := kc σ vc σ1 h1
+                subst e1
+                simp only [h1] at he
+                cases hch : I.choose vc with
+                | none => rw [hch] at he; exact absurd he (by simp)
+                | some b =>
+                  rw [hch] at he
+                  cases b with
+                  | true => exact kt σ1 v σ' he
+                  | false => exact kf σ1 v σ' he
+            | .nil, _, _, hlen, _ => simp [DFields.length] at hlen
+            | .payload _ _, hwf, _, _, _ => simp [wfFields] at hwf
+            | .many _ _, _, hgf, _, _ =>
+              have h0 := hcov' 0 (by decide)
+              simp only [testDFields, Bool.and_eq_true, Bool.not_eq_true'] at hgf
+              rcases h0 with (h | h) | h
+              · rw [hgf.1.1.1] at h; exact absurd h (by simp)
+              · rw [hgf.1.1.2] at h; exact absurd h (by simp)
+              · rw [hall 0] at h; exact absurd h (by simp)
+            | .one _ .nil, _, _, hlen, _ => simp [DFields.length] at hlen
+            | .one _ (.payload _ _), hwf, _, _, _ => simp [wfFields] at hwf
+            | .one _ (.many _ _), _, hgf, _, _ =>
+              have h0 := hcov' 1 (by decide)
+              simp only [testDFields, Bool.and_eq_true, Bool.not_eq_true'] at hgf
+              rcases h0 with (h | h) | h
+              · rw [hgf.2.1.1.1] at h; exact absurd h (by simp)
+              · rw [hgf.2.1.1.2] at h; exact absurd h (by simp)
+              · rw [hall 1] at h; exact absurd h (by simp)
+            | .one _ (.one _ .nil), _, _, hlen, _ => simp [DFields.length] at hlen
+            | .one _ (.one _ (.payload _ _)), hwf, _, _, _ => simp [wfFields] at hwf
+            | .one _ (.one _ (.many _ _)), _, hgf, _, _ =>
+              have h0 := hcov' 2 (by decide)
+              simp only [testDFields, Bool.and_eq_true, Bool.not_eq_true'] at hgf
+              rcases h0 with (h | h) | h
+              · rw [hgf.2.2.1.1.1] at h; exact absurd h (by simp)
+              · rw [hgf.2.2.1.1.2] at h; exact absurd h (by simp)
+              · rw [hall 2] at h; exact absurd h (by simp)
+            | .one _ (.one _ (.one _ (.payload _ _))), _, _, hlen, _ => simp [DFields.length] at hlen
+            | .one _ (.one _ (.one _ (.one _ _))), _, _, hlen, _ => simp [DFields.length] at hlen
+            | .one _ (.one _ (.one _ (.many _ _))), _, _, hlen, _ => simp [DFields.length] at hlen
+        · -- an `IntrinsicOp` restricted to pure operators
+          rw [if_neg hops] at hkind
+          simp only [Bool.and_eq_true, beq_iff_eq, List.all_eq_true] at hkind
+          obtain ⟨⟨⟨hc, hpure⟩, hself⟩, hother⟩ := hkind
+          subst hc
+          have hk' : k = ⟨"IntrinsicOp", 2, [1]⟩ := by
+            have : ctorOf "IntrinsicOp" = some ⟨"IntrinsicOp", 2, [1]⟩ := by decide
+            rw [this] at hk; exact (Option.some.inj hk).symm
+          subst hk'
+          have hs0 : ∀ i, r.self.contains i = false := by
+            intro i; have : r.self = [] := by simpa using hself
+            simp [this]
+          have ho0 : ∀ i, r.other.contains i = false := by
+            intro i; have : r.other = [] := by simpa using hother
+            simp [this]
+          have hwf := hw.2
+          have hgf := hg.2
+          have hlen := hw.1
+          match fs, hwf, hgf, hlen, he, hop with
+          | .payload p (.many es .nil), hwf, hgf, _, he, hop =>
+            simp only [wfFields, Bool.and_eq_true] at hwf
+            have hwes : wfList es = true := hwf.2.1.2
+            have hall1 : r.allOf.contains 1 = true := by
+              rcases hcov' 1 (by decide) with (h | h) | h
+              · rw [hs0 1] at h; exact absurd h (by simp)
+              · rw [ho0 1] at h; exact absurd h (by simp)
+              · exact h
+            simp only [testDFields, Bool.and_eq_true] at hgf
+            have hges : testDAll rows more es = true := by
+              have := hgf.1.2
+              rw [if_pos hall1] at this
+              exact this
+            have hpi : pureOpIdx p = true := by
+              unfold opOK at hop
+              have hne : r.ops.isEmpty = false := by simpa using hops
+              rw [hne, Bool.false_or] at hop
+              unfold pureOpIdx
+              cases hn : intrinsicOpNames[p]? with
+              | none => simp [hn] at hop
+              | some n =>
+                simp only [hn] at hop ⊢
+                exact hpure n (by simpa using hop)
+            unfold eval at he
+            rw [if_neg (by decide), if_pos rfl] at he
+            simp only [hpi, if_true] at he
+            exact testDAll_keeps_lazy I es rows more hs hwes hges p [] σ v σ' he
+          | .nil, _, _, hlen, _, _ => simp [DFields.length] at hlen
+          | .one _ _, hwf, _, _, _, _ => simp [wfFields] at hwf
+          | .many _ _, hwf, _, _, _, _ => simp [wfFields] at hwf
+          | .payload _ .nil, _, _, hlen, _, _ => simp [DFields.length] at hlen
+          | .payload _ (.payload _ _), hwf, _, _, _, _ => simp [wfFields] at hwf
+          | .payload _ (.one _ _), _, hgf, _, _, _ =>
+            have h0 := hcov' 1 (by decide)
+            simp only [testDFields, Bool.and_eq_true, Bool.not_eq_true'] at hgf
+            rcases h0 with (h | h) | h
+            · rw [hs0 1] at h; exact absurd h (by simp)
+            · rw [ho0 1] at h; exact absurd h (by simp)
+            · rw [hgf.1.1] at h; exact absurd h (by simp)
+          | .payload _ (.many _ (.payload _ _)), _, _, hlen, _, _ => simp [DFields.length] at hlen
+          | .payload _ (.many _ (.one _ _)), _, _, hlen, _, _ => simp [DFields.length] at hlen
+          | .payload _ (.many _ (.many _ _)), _, _, hlen, _, _ => simp [DFields.length] at hlen
+theorem testDFields_keeps_store (I : Interp Val Store) :
+    ∀ (fs : DFields) (rows : List PlaceRow) (more : List (List PlaceRow)) (r : PlaceRow), SoundTabs (rows :: more) = true →
+      ∀ (exprFields : List Nat), (∀ j, exprFields.contains j = true →
+          (r.self.contains j = true ∨ r.other.contains j = true) ∨ r.allOf.contains j = true) →
+      ∀ (i : Nat), wfFields exprFields i fs = true → testDFields rows more r i fs = true →
+      ∀ σ vs σ', evalFields I fs σ = some (vs, σ') → σ' = σ
+  | .nil, _, _, _, _, _, _, _, _, _, σ, vs, σ', he => by
+    unfold evalFields at he
+    simp only [Option.some.injEq, Prod.mk.injEq] at he
+    exact he.2.symm
+  | .payload _ rest, rows, more, r, hs, ef, hcov, i, hw, hg, σ, vs, σ', he => by
+    unfold wfFields at hw
+    unfold testDFields at hg
+    unfold evalFields at he
+    simp only [Bool.and_eq_true] at hw
+    exact testDFields_keeps_store I rest rows more r hs ef hcov (i + 1) hw.2 hg σ vs σ' he
+  | .one e rest, rows, more, r, hs, ef, hcov, i, hw, hg, σ, vs, σ', he => by
+    unfold wfFields at hw
+    unfold testDFields at hg
+    unfold evalFields at he
+    simp only [Bool.and_eq_true] at hw hg
+    have pe := one_field (hcov i hw.1.1) hg.1.1 hg.1.2
+    cases h1 : eval I e σ with
+    | none => rw [h1] at he; exact absurd he (by simp)
+    | some p =>
+      obtain ⟨v, σ1⟩ := p
+      simp only [h1] at he
+      have e1 : σ1 = σ := by
+        rcases pe with h | h
+        · exact testD_keeps_store I e (rows :: more) hs hw.1.2 h σ v σ1 h1
+        · exact testD_keeps_store I e more (soundTabs_tail hs) hw.1.2 h σ v σ1 h1
+      cases h2 : evalFields I rest σ1 with
+      | none => rw [h2] at he; exact absurd he (by simp)
+      | some q =>
+        obtain ⟨ws, σ2⟩ := q
+        simp only [h2] at he
+        have e2 : σ2 = σ1 := testDFields_keeps_store I rest rows more r hs ef hcov (i + 1) hw.2 hg.2 σ1 ws σ2 h2
+        simp only [Option.some.injEq, Prod.mk.injEq] at he
+        rw [← he.2, e2, e1]
+  | .many es rest, rows, more, r, hs, ef, hcov, i, hw, hg, σ, vs, σ', he => by
+    unfold wfFields at hw
+    unfold testDFields at hg
+    unfold evalFields at he
+    simp only [Bool.and_eq_true, Bool.not_eq_true'] at hw hg
+    have hall : r.allOf.contains i = true := by
+      rcases hcov i hw.1.1 with (h | h) | h
+      · rw [hg.1.1.1] at h; exact absurd h (by simp)
+      · rw [hg.1.1.2] at h; exact absurd h (by simp)
+      · exact h
+    have hges : testDAll rows more es = true := by
+      have := hg.1.2
+      rw [if_pos hall] at this
+      exact this
+    cases h1 : evalList I es σ with
+    | none => rw [h1] at he; exact absurd he (by simp)
+    | some p =>
+      obtain ⟨ws, σ1⟩ := p
+      simp only [h1] at he
+      have e1 : σ1 = σ := testDAll_keeps_list I es rows more hs hw.1.2 hges σ ws σ1 h1
+      cases h2 : evalFields I rest σ1 with
+      | none => rw [h2] at he; exact absurd he (by simp)
+      | some q =>
+        obtain ⟨us, σ2⟩ := q
+        simp only [h2] at he
+        have e2 : σ2 = σ1 := testDFields_keeps_store I rest rows more r hs ef hcov (i + 1) hw.2 hg.2 σ1 us σ2 h2
+        simp only [Option.some.injEq, Prod.mk.injEq] at he
+        rw [← he.2, e2, e1]
+theorem testDAll_keeps_list (I : Interp Val Store) :
+    ∀ (es : DExprs) (rows : List PlaceRow) (more : List (List PlaceRow)), SoundTabs (rows :: more) = true →
+      wfList es = true → testDAll rows more es = true → ∀ σ vs σ', evalList I es σ = some (vs, σ') → σ' = σ
+  | .nil, _, _, _, _, _, σ, vs, σ', he => by
+    unfold evalList at he
+    simp only [Option.some.injEq, Prod.mk.injEq] at he
+    exact he.2.symm
+  | .cons e rest, rows, more, hs, hw, hg, σ, vs, σ', he => by
+    unfold wfList at hw
+    unfold testDAll at hg
+    unfold evalList at he
+    simp only [Bool.and_eq_true] at hw hg
+    cases h1 : eval I e σ with
+    | none => rw [h1] at he; exact absurd he (by simp)
+    | some p =>
+      obtain ⟨v, σ1⟩ := p
+      simp only [h1] at he
+      have e1 : σ1 = σ := testD_keeps_store I e (rows :: more) hs hw.1 hg.1 σ v σ1 h1
+      cases h2 : evalList I rest σ1 with
+      | none => rw [h2] at he; exact absurd he (by simp)
+      | some q =>
+        obtain ⟨ws, σ2⟩ := q
+        simp only [h2] at he
+        have e2 : σ2 = σ1 := testDAll_keeps_list I rest rows more hs hw.2 hg.2 σ1 ws σ2 h2
+        simp only [Option.some.injEq, Prod.mk.injEq] at he
+        rw [← he.2, e2, e1]
+theorem testDAll_keeps_lazy (I : Interp Val Store) :
+    ∀ (es : DExprs) (rows : List PlaceRow) (more : List (List PlaceRow)), SoundTabs (rows :: more) = true →
+      wfList es = true → testDAll rows more es = true →
+      ∀ (p : Nat) (acc : List Val) σ v σ', evalLazy I p es acc σ = some (v, σ') → σ' = σ
+  | .nil, _, _, _, _, _, p, acc, σ, v, σ', he => by
+    unfold evalLazy at he
+    cases hst : I.step "IntrinsicOp" [p] acc σ with
+    | none => rw [hst] at he; exact absurd he (by simp)
+    | some w =>
+      simp only [hst, Option.map_some, Option.some.injEq, Prod.mk.injEq] at he
+      exact he.2.symm
+  | .cons e rest, rows, more, hs, hw, hg, p, acc, σ, v, σ', he => by
+    unfold wfList at hw
+    unfold testDAll at hg
+    unfold evalLazy at he
+    simp only [Bool.and_eq_true] at hw hg
+    cases h1 : eval I e σ with
+    | none => rw [h1] at he; exact absurd he (by simp)
+    | some q =>
+      obtain ⟨w, σ1⟩ := q
+      simp only [h1] at he
+      have e1 : σ1 = σ := testD_keeps_store I e (rows :: more) hs hw.1 hg.1 σ w σ1 h1
+      cases hea : I.early p (acc ++ [w]) σ1 with
+      | some r' =>
+        simp only [hea, Option.some.injEq, Prod.mk.injEq] at he
+        rw [← he.2, e1]
+      | none =>
+        simp only [hea] at he
+        have e2 := testDAll_keeps_lazy I rest rows more hs hw.2 hg.2 p (acc ++ [w]) σ1 v σ' he
+        rw [e2, e1]
+end
+
+/-! ## the clauses of a struct cast -/
+
+/-- a clause that converts evaluates the operand, then the cast's own step on the operand's value -/
+theorem eval_convert (I : Interp Val Store) (e : DExpr) (t : Nat) (σ : Store) :
+    eval I (clauseExpr e (.convert t)) σ =
+      match eval I e σ with
+      | none => none
+      | some (v, σ1) => (I.step "Cast" [t] [v] σ1).map (fun w => (w, σ1)) := by
+  have hcast : ∀ fs, eval I (.node "Cast" fs) σ =
+      (match evalFields I fs σ with
+        | none => none
+        | some (vs, σ1) => match I.step "Cast" fs.payloads vs σ1 with
+          | none => none
+          | some v => some (v, σ1)) := by
+    intro fs; unfold eval; rw [if_pos (by decide)]; rfl
+  simp only [clauseExpr]
+  rw [hcast]
+  simp only [evalFields, DFields.payloads]
+  cases eval I e σ with
+  | none => rfl
+  | some p =>
+    obtain ⟨v, σ1⟩ := p
+    simp only []
+    cases I.step "Cast" [t] [v] σ1 <;> rfl
+
+/-- one clause: the operand evaluated once, converted if the clause converts -/
+theorem eval_clause (I : Interp Val Store) (e : DExpr) (c : Clause) (σ : Store) (v : Val) (σ' : Store)
+    (he : eval I e σ = some (v, σ')) : eval I (clauseExpr e c) σ = (clauseVal I v σ' c).map (fun w => (w, σ')) := by
+  cases c with
+  | copy => simp [clauseExpr, clauseVal, he]
+  | convert t => rw [eval_convert, he]; rfl
+
+/-- the clauses of an operand that keeps the store: each the operand's one value, converted where the clause converts, and
+the store unchanged — or undefined exactly when one of the conversions is -/
+theorem clauses_of_keeps_store (I : Interp Val Store) (e : DExpr) (σ : Store) (v : Val) (he : eval I e σ = some (v, σ)) :
+    ∀ (cs : List Clause), evalClauses I e cs σ = (mapOptL (clauseVal I v σ) cs).map (fun vs => (vs, σ))
+  | [] => rfl
+  | c :: cs => by
+    unfold evalClauses mapOptL
+    rw [eval_clause I e c σ v σ he]
+    cases clauseVal I v σ c with
+    | none => rfl
+    | some w =>
+      simp only [Option.map_some]
+      rw [clauses_of_keeps_store I e σ v he cs]
+      cases mapOptL (clauseVal I v σ) cs <;> rfl
 
 end RsslVerif.Lemmas.MslDup
